@@ -94,6 +94,35 @@ fn finish_report(int: Int<'_>, seed: u64, label: &str) -> String {
     s.push_str(&format!(" rech {}", rec_hashes.len()));
     for h in &rec_hashes { s.push_str(&format!(" {:016x}", h)); }
     s.push_str(if rec_into == rec_hashes { " reci 1" } else { " reci 0" });
+    // the simulator's other accessors and its own measurement entry point, on a copy of the finished simulator:
+    // probabilities / polar amplitudes agree with the raw state, and Sym::measure(q, c) writes the outcome of the
+    // measured qubits into the paired classical bits in the session's mode
+    {
+        let mut probe = sym.clone();
+        let n_q = raw.len().trailing_zeros() as usize;      // raw.len() = max(2^n, 8): only used for n >= 3
+        let probs = probe.get_probabilities();
+        let polar = probe.get_polar_wavefunction();
+        let total: f64 = raw.iter().map(|z| z.norm_sqr()).sum();
+        let mut ok = probs.len() == polar.len() && probs.len().is_power_of_two() && probs.len() <= raw.len()
+            && (probs.len() == raw.len() || raw.len() == 8);
+        for (i, (p, (r, _))) in probs.iter().zip(polar.iter()).enumerate() {
+            let want = raw[i].norm_sqr() / total;
+            if (p - want).abs() > 1e-12 || (r * r - raw[i].norm_sqr()).abs() > 1e-12 { ok = false; }
+        }
+        let _ = n_q;
+        let width = (probs.len().trailing_zeros() as usize).min(c.num());
+        if width > 0 {
+            let (q_arg, c_arg) = ((1usize << width) - 1, (1usize << width) - 1);
+            let before = probe.get_class().get();
+            let _ = qvnt::verif::take_outcomes();
+            probe.measure(q_arg, c_arg);
+            let seen = qvnt::verif::take_outcomes();
+            let v = seen.last().copied().unwrap_or(0) & q_arg;
+            let want = if label.starts_with('x') { before ^ v } else { (before & !c_arg) | v };
+            if probe.get_class().get() != want || seen.len() != 1 { ok = false; }
+        }
+        s.push_str(if ok { " acc 1" } else { " acc 0" });
+    }
     // the same program on the simulator the previous case left behind
     if TWIN.with(|t| t.get()) {
         return s;
@@ -193,7 +222,7 @@ pub fn run(toks: &[&str]) -> String {
                 }
                 snaps.push(snapshot(&int));
             }
-            format!("OK v {} {} snap {} | final {}", verdicts.len(), verdicts.join(" "), snaps.join("/"), finish_report(int, seed, "session"))
+            format!("OK v {} {} snap {} | final {}", verdicts.len(), verdicts.join(" "), snaps.join("/"), finish_report(int, seed, if xor { "xsession" } else { "session" }))
         }
         "rerun" => {
             let seed: u64 = t.next().unwrap().parse().unwrap();
